@@ -539,6 +539,9 @@ m("c19-hand-jail-keeps-power-index", "C19", "app/export.go",
   "\t\t\tapp.StakingKeeper.DeleteValidatorByPowerIndex(ctx, validator)\n\t\t\tvalidator.Jailed = true", "\t\t\tvalidator.Jailed = true", "leaves-the-power-index",
   "the zero-height export jails by hand without removing the record from the power index")
 # ---------------- C20 ----------------
+m("c20-indexer-resumes-at-last-indexed", "C20", "server/indexer_service.go",
+  "\tif earliest := status.SyncInfo.EarliestBlockHeight; lastBlock < earliest-1 {\n\t\tlastBlock = earliest - 1\n\t}\n", "", "start-clamped-to-the-earliest-block",
+  "the indexer service resumes at the last block that held an Ethereum transaction, whatever the block store still has")
 m("c20-no-memstore-rebuild", "C20", "app/app.go",
   "\t\tif app.LastBlockHeight() > 0 {\n\t\t\tapp.CapabilityKeeper.InitMemStore(app.BaseApp.NewUncachedContext(true, tmproto.Header{}))\n\t\t}\n",
   "\t\t_ = tmproto.Header{}\n", "capabilities-rebuilt-after-load",
@@ -552,7 +555,7 @@ m("c20-registercoin-registers-extensions", "C20", "x/erc20/keeper/proposals.go",
   "\tk.SetERC20Map(ctx, common.HexToAddress(pair.Erc20Address), pair.GetID())\n\tif err := k.RegisterERC20Extensions(ctx); err != nil {\n\t\treturn nil, err\n\t}\n\n\treturn &pair, nil",
   "RegisterERC20Extensions#unreachable", "registering a coin extends the in-memory precompile registry at run time; a restarted node rebuilds only the static one")
 m("c20-hooks-circuit-breaker", "C20", "x/evm/keeper/keeper.go",
-  "\treturn k.hooks.PostTxProcessing(ctx, msg, receipt)\n", "\terr := k.hooks.PostTxProcessing(ctx, msg, receipt)\n\tif err != nil {\n\t\tk.hooks = nil\n\t}\n\treturn err\n",
+  "\treturn k.hooks.PostTxProcessing(ctx, msg, receipt)\n", "\terr = k.hooks.PostTxProcessing(ctx, msg, receipt)\n\tif err != nil {\n\t\tk.hooks = nil\n\t}\n\treturn err\n",
   "PostTxProcessing#writes-", "the first failing hook switches the hooks off for the rest of the process lifetime")
 m("c20-antehandler-only-when-loading", "C20", "app/app.go",
   "\tapp.setAnteHandler(encodingConfig.TxConfig, maxGasWanted)\n", "\tif loadLatest {\n\t\tapp.setAnteHandler(encodingConfig.TxConfig, maxGasWanted)\n\t}\n",
